@@ -132,7 +132,6 @@ theorem lex_facts {data : Bytes} {i i1 : Input} {tok : Token} (hr : Reach data i
   intro D hD
   unfold Done at hD ⊢
   rw [readToken_comments_rec i i1 hrt, hD]
-  simp
 
 theorem recOf_not_eol {tok : Token} (h : tok.kind.isEOL = false) : recOf tok = [] := by
   unfold recOf
@@ -258,7 +257,7 @@ theorem parseLineBlockLoop_own {data : Bytes} : ∀ (fuel : Nat) (i : Input) (x 
         simp only [hl, bind, Except.bind] at h
         obtain ⟨_, hr1, hg1, hdone, hb1, hb2, hnext⟩ := lex_facts hr hg hl
         have hD1 := hdone _ hD
-        rw [recOf_not_eolc (by rw [hk]; simp), List.append_nil] at hD1
+        rw [recOf_of_not_eolc (by rw [hk]; simp), List.append_nil] at hD1
         exact ih i1 x linesRev _ b i' D Cl lo mid hr1 hg1 (hnext (Or.inl hk)) hD1 hlo (by omega) h
     · -- whole-line comment
       rename_i hk
@@ -270,7 +269,7 @@ theorem parseLineBlockLoop_own {data : Bytes} : ∀ (fuel : Nat) (i : Input) (x 
         simp only [hl, bind, Except.bind] at h
         obtain ⟨_, hr1, hg1, hdone, hb1, hb2, hnext⟩ := lex_facts hr hg hl
         have hD1 := hdone _ hD
-        rw [recOf_not_eolc (by rw [hk]; simp), List.append_nil] at hD1
+        rw [recOf_of_not_eolc (by rw [hk]; simp), List.append_nil] at hD1
         exact ih i1 x linesRev _ b i' D Cl lo mid hr1 hg1 (hnext (Or.inr (Or.inr (Or.inl hk)))) hD1 hlo (by omega) h
     · cases h
     · -- `)`
@@ -295,7 +294,7 @@ theorem parseLineBlockLoop_own {data : Bytes} : ∀ (fuel : Nat) (i : Input) (x 
             obtain ⟨rfl, rfl⟩ := h
             obtain ⟨htok2, hr2, hg2, hdone2, hc1, hc2, hnext2⟩ := lex_facts hr1 hg1 hl2
             have hD1 := hdone _ hD
-            rw [recOf_not_eolc (by rw [hk]; simp), List.append_nil] at hD1
+            rw [recOf_of_not_eolc (by rw [hk]; simp), List.append_nil] at hD1
             have hD2 := hdone2 _ hD1
             have hend := punct_end hr 41 hk
             refine ⟨hr2, hg2, hnext2 (isEOL_eolKind heol), rfl, rfl, rfl, rfl,
